@@ -262,7 +262,7 @@ def one_case(rec, rnd, idx):
 
 
 def shards(tier, seed):
-    n = 2400 if tier == "quick" else 120000
+    n = 2400 if tier == "quick" else 800000
     per = 150 if tier == "quick" else 2500
     return [{"seed": seed, "first": i, "n": per} for i in range(0, n, per)]
 
